@@ -320,14 +320,39 @@ def call(e, current, key, ctx):
     raise ValueError(fn)
 
 
+def _loose_eq(a, b):
+    try:
+        return a == b
+    except Exception:  # noqa: BLE001
+        return False
+
+
 def membership(needle, hay, ctx):
-    """`needle in hay` as documented: arrays (by equality), strings (substring), object keys."""
+    """`needle in hay` as documented: arrays (by equality), strings (substring), object keys.
+
+    Cases the documentation leaves open are tagged `membership.unjudged` (the caller then does not
+    judge the case): a non-string looked up in a string, a non-string looked up among object keys,
+    and an array haystack where strict JSON equality and Python's == disagree (true vs 1, nested).
+    """
+    if needle is NOTHING or hay is NOTHING:
+        ctx.events.add("membership.unjudged")
+        return False
     if isinstance(hay, list):
-        return any(deep_eq(needle, x) for x in hay)
+        strict = any(deep_eq(needle, x) for x in hay)
+        loose = any(_loose_eq(needle, x) for x in hay)
+        if strict != loose:
+            ctx.events.add("membership.unjudged")
+        return strict
     if isinstance(hay, str):
-        return isinstance(needle, str) and needle in hay
+        if not isinstance(needle, str):
+            ctx.events.add("membership.unjudged")
+            return False
+        return needle in hay
     if isinstance(hay, dict):
-        return isinstance(needle, str) and needle in hay
+        if not isinstance(needle, str):
+            ctx.events.add("membership.unjudged")
+            return False
+        return needle in hay
     return False
 
 
